@@ -161,6 +161,11 @@ func zzC15Bytes() {
 			buf[size-1] = old ^ 0xff
 			vAssert(r[L-1] == old, "newBuf=true result still aliases the source buffer")
 		}
+		if newBuf {
+			// also for an empty value: a zero-length window into the source keeps its capacity, so an
+			// append to the decoded value would overwrite the items that follow it in the source
+			vAssert(!vSameCell(r, buf), "newBuf=true result shares the source buffer's backing array")
+		}
 	}
 	// writer emits identical bytes (the source buffer may have been modified above: re-marshal)
 	buf2 := make([]byte, size)
@@ -259,8 +264,13 @@ func zzC15Concat() {
 			vAssert(e == nil && uint64(r) == nums[i], "concat: varint")
 			off += c
 		case 5:
-			c, r, e := UnmarshalBytes(buf[off:], false)
+			nb := vBool("newBuf")
+			c, r, e := UnmarshalBytes(buf[off:], nb)
 			vAssert(e == nil && len(r) == len(strs[i]), "concat: bytes")
+			if nb {
+				// independent of the source even when empty (cap(r) would reach the items that follow)
+				vAssert(!vSameCell(r, buf), "concat: newBuf=true result can reach the source buffer")
+			}
 			for j := range r {
 				vAssert(r[j] == strs[i][j], "concat: bytes content")
 			}
